@@ -477,6 +477,28 @@ func locksMain(args []string) {
 			return "ok"
 		})
 	}
+	// B5. look-ups that miss (unknown hash, unknown address: DAG first, storage second) and look-ups that hit, before and
+	// after a truncation has moved vertices to storage; every error path has to give its locks back
+	r.fresh()
+	for round := 0; round < 2; round++ {
+		round := round
+		r.scenario("lookup.miss", round, func(lb *lockBook) string {
+			ctx := context.Background()
+			var unknown [32]byte
+			unknown[0], unknown[31] = 7, byte(round+1)
+			_, e1 := lb.ab.ReadVertex(ctx, unknown)
+			_, e2 := lb.ab.ReadTransactionByHash(ctx, unknown)
+			_, e3 := lb.ab.ReadDAGTransactionsByAddress(ctx, "no-such-address")
+			_, e4 := lb.ab.CalculateBalance(ctx, "no-such-address")
+			tip, _ := lb.propose(ctx)
+			_, e5 := lb.ab.ReadVertex(ctx, tip.Hash)
+			_, e6 := lb.ab.ReadTransactionByHash(ctx, tip.Transaction.Hash)
+			if round == 0 {
+				_ = lb.ab.VerifTruncate(ctx)
+			}
+			return fmt.Sprintf("%v|%v|%v|%v|%v|%v", e1 != nil, e2 != nil, e3 != nil, e4 != nil, e5 != nil, e6 != nil)
+		})
+	}
 	// C. validation error inside a walk: a tip whose funds do not suffice is dropped by the next proposal
 	r.fresh()
 	r.scenario("propose.invalidtip", 0, func(lb *lockBook) string {
